@@ -225,7 +225,16 @@ fn ack_reading(ctx: &Ctx, out: &mut Outcome, base: u64, set: &BTreeSet<u64>) {
         out.count("ack_reading_void");
         return;
     }
-    let ack = Packet::Ack { sequence: 0, ack_ranges: ranges_of(set) };
+    // sometimes the Ack also announces a long run far above everything in flight (a receiver that got tens of
+    // thousands of later packets): it must not change how the ranges below it are read
+    let mut ranges = ranges_of(set);
+    let far = base + 12 + 3 + (set.len() as u64 % 5);
+    let width = [0u64, 300, 65_536, 70_000, 1 << 33][(set.iter().sum::<u64>() % 5) as usize];
+    if width > 0 {
+        ranges.push(far..far + width);
+        out.count("ack_reading_with_wide_upper_range");
+    }
+    let ack = Packet::Ack { sequence: 0, ack_ranges: ranges };
     let Some(b) = enc(&ack) else { return };
     c.process_packet(&b);
     out.count("ack_reading_cases");
@@ -385,9 +394,12 @@ fn gen_ranges(r: &mut Rng, n: usize) -> Vec<Range<u64>> {
         _ => 0,
     };
     for _ in 0..n {
-        let len = match r.below(4) {
+        // range lengths also sit on the width boundaries of their varint encoding (a long run of packets received
+        // while no acknowledgement of an Ack came back)
+        let len = match r.below(5) {
             0 => 1,
             1 => 2,
+            2 => *r.pick(&[63u64, 64, 255, 256, 16_383, 16_384, 65_535, 65_536, 65_537, 1 << 20, (1 << 30) + 1, (1 << 32) + 5]),
             _ => 1 + r.below(70),
         };
         if x >= (1 << 62) - len - 2 {
